@@ -47,6 +47,18 @@ def programs(tier):
         r = B.opnd(("S", 4))
         B.add(call_step([{"c": 2}, r, {"f": [3, 2]}], how))
         progs.append(B.build())
+    # aliasing: the SAME container object passed twice / reachable twice, and the same secret returned several times
+    for how in ("identity", "dup", "sumprod"):
+        for nm, mk in (("samelist", lambda r: [r, r]), ("nestedsame", lambda r: [{"l": [r, r]}, {"c": 5}]), ("tuplesame", lambda r: [{"t": [r, {"f": [1, 2]}, r]}])):
+            B = gen.Builder("snark/alias/%s/%s" % (nm, how), "plain", None, {"op": how, "kinds": "alias-" + nm})
+            B.add({"op": "peek", "a": {"l": [{"c": 3}, {"f": [5, 2]}, {"b": True}]}})
+            B.add(call_step(mk({"r": 0}), how))
+            progs.append(B.build())
+    for how in ("dup",):
+        for seq in (("int",), ("float", "int"), ("list_if",), ("bool", "float")):
+            B = gen.Builder("snark/dupret/%s" % "-".join(seq), "plain", None, {"op": how, "kinds": "-".join(seq)})
+            B.add(call_step([shp[a] for a in seq], how))
+            progs.append(B.build())
     # several decorated calls in one run
     for k, (a, b, c) in enumerate(tri[::(40 if tier == "quick" else 7)]):
         B = gen.Builder("snark/multi/%d" % k, "plain", None, {"op": "multi", "kinds": "%s|%s|%s" % (a, b, c)})
